@@ -2,4 +2,1446 @@
 
 package main
 
-func init() { drivers["alias"] = func(o opts) error { return nil } }
+// Drivers for property C19 (independent sessions do not interfere).
+//
+//   alias  deterministic, one goroutine: (1) CPrim cases — schedules of the buffer operations the VM
+//          performs (b = b[n:], append(b, code...), append([]byte{}, bh...), b = bh, SetCode/GetCode, decode)
+//          executed on real Go slices for 2-4 sessions over shared arrays with spare capacity;
+//          (2) CApp cases — generated applications served by the real engine for 2-4 sessions that share
+//          nothing but the application's byte slices (make([]byte, n, n+64), capacity filled with 0xEE),
+//          requests interleaved along a generated schedule, compared with each session's solo run.
+//   race   the same sharing set-up served concurrently, one goroutine per session (2..16); meant to be run
+//          from a binary built with `go build -race`; a data race makes the process exit with status 66.
+//
+// Every identifier is prefixed cc: the file can be dropped into go/cmd/vh unchanged.
+
+import (
+	"bytes"
+	"context"
+	"errors"
+	"fmt"
+	"math/rand"
+	"os"
+	"runtime"
+	"runtime/debug"
+	"sort"
+	"strings"
+	"sync"
+	"time"
+	"unsafe"
+
+	"git.defalsify.org/vise.git/cache"
+	"git.defalsify.org/vise.git/db"
+	memdb "git.defalsify.org/vise.git/db/mem"
+	"git.defalsify.org/vise.git/engine"
+	"git.defalsify.org/vise.git/lang"
+	"git.defalsify.org/vise.git/persist"
+	"git.defalsify.org/vise.git/render"
+	"git.defalsify.org/vise.git/resource"
+	"git.defalsify.org/vise.git/state"
+	"git.defalsify.org/vise.git/vm"
+	"verif/harness/internal/hx"
+)
+
+const ccSpare = 64
+const ccSentinel = 0xEE
+
+// ---- application description (same Coq terms as the engine driver) -------------------------
+
+type ccFres struct {
+	Content string   `json:"content"`
+	Echo    bool     `json:"echo"`
+	Status  int      `json:"status"`
+	Set     []uint32 `json:"set"`
+	Reset   []uint32 `json:"reset"`
+	Fail    bool     `json:"fail"`
+}
+
+type ccKV struct{ K, V string }
+
+type ccApp struct {
+	Code  []ccKV              `json:"code"`
+	Tpl   []ccKV              `json:"tpl"`
+	Menu  []ccKV              `json:"menu"`
+	Funcs []string            `json:"funcs"`
+	Fn    map[string][]ccFres `json:"fn"`
+}
+
+type ccCfg struct {
+	Out        uint32 `json:"out"`
+	Root       string `json:"root"`
+	FlagCount  uint32 `json:"flagcount"`
+	CacheSize  uint32 `json:"cachesize"`
+	Lang       string `json:"lang"`
+	Sep        string `json:"sep"`
+	ResetEmpty bool   `json:"resetempty"`
+}
+
+func ccFresList(fs []ccFres) string {
+	r := make([]string, len(fs))
+	for i, f := range fs {
+		r[i] = fmt.Sprintf("(mkFres %s %s %d %s %s %s)", hx.S(f.Content), hx.Bool(f.Echo), f.Status, hx.NList(f.Set), hx.NList(f.Reset), hx.Bool(f.Fail))
+	}
+	return hx.List(r)
+}
+
+func ccKVTerm(l []ccKV) string {
+	r := make([]string, len(l))
+	for i, e := range l {
+		r[i] = fmt.Sprintf("(%s, %s)", hx.S(e.K), hx.S(e.V))
+	}
+	return hx.List(r)
+}
+
+func (a *ccApp) term() string {
+	fn := make([]string, len(a.Funcs))
+	for i, s := range a.Funcs {
+		fn[i] = fmt.Sprintf("(%s, %s)", hx.S(s), ccFresList(a.Fn[s]))
+	}
+	return fmt.Sprintf("(mkApp %s %s %s %s)", ccKVTerm(a.Code), ccKVTerm(a.Tpl), ccKVTerm(a.Menu), hx.List(fn))
+}
+
+func (c *ccCfg) term() string {
+	return fmt.Sprintf("(mkCfg %d %s %d %d %s %s %s None)", c.Out, hx.S(c.Root), c.FlagCount, c.CacheSize, hx.S(c.Lang), hx.S(c.Sep), hx.Bool(c.ResetEmpty))
+}
+
+// ---- shared immutable data -------------------------------------------------------------------
+
+// one byte slice with spare capacity behind it; init is a private copy of the whole array
+type ccArr struct {
+	name string
+	s    []byte
+	init []byte
+}
+
+func ccMkArr(name, v string) ccArr {
+	s := make([]byte, len(v), len(v)+ccSpare)
+	copy(s, v)
+	full := s[:cap(s)]
+	for i := len(v); i < len(full); i++ {
+		full[i] = ccSentinel
+	}
+	return ccArr{name: name, s: s, init: append([]byte{}, full...)}
+}
+
+func (a ccArr) full() []byte { return a.s[:cap(a.s)] }
+func (a ccArr) intact() bool { return bytes.Equal(a.full(), a.init) }
+
+type ccShared struct {
+	code, tpl, menu []ccArr
+}
+
+func ccMakeShared(a *ccApp) *ccShared {
+	sh := &ccShared{}
+	for _, e := range a.Code {
+		sh.code = append(sh.code, ccMkArr(e.K, e.V))
+	}
+	for _, e := range a.Tpl {
+		sh.tpl = append(sh.tpl, ccMkArr(e.K, e.V))
+	}
+	for _, e := range a.Menu {
+		sh.menu = append(sh.menu, ccMkArr(e.K, e.V))
+	}
+	return sh
+}
+
+func ccOverlap(a, b []byte) bool {
+	if cap(a) == 0 || cap(b) == 0 {
+		return false
+	}
+	pa := uintptr(unsafe.Pointer(unsafe.SliceData(a)))
+	pb := uintptr(unsafe.Pointer(unsafe.SliceData(b)))
+	return pa < pb+uintptr(cap(b)) && pb < pa+uintptr(cap(a))
+}
+
+// does b's backing array overlap an array of the shared application data?
+func (sh *ccShared) overlaps(b []byte) bool {
+	for _, l := range [][]ccArr{sh.code, sh.tpl, sh.menu} {
+		for _, a := range l {
+			if ccOverlap(a.full(), b) {
+				return true
+			}
+		}
+	}
+	return false
+}
+
+func (sh *ccShared) otherIntact() bool {
+	for _, l := range [][]ccArr{sh.tpl, sh.menu} {
+		for _, a := range l {
+			if !a.intact() {
+				return false
+			}
+		}
+	}
+	return true
+}
+
+func (sh *ccShared) codeArrays() [][]byte {
+	r := make([][]byte, len(sh.code))
+	for i, a := range sh.code {
+		r[i] = append([]byte{}, a.full()...)
+	}
+	return r
+}
+
+// ---- the real resource of one session, recording its calls -------------------------------------
+
+type ccCall struct {
+	Kind  string
+	Sym   string
+	Lang  string
+	Input []byte
+	NoIn  bool
+}
+
+func (c ccCall) term() string {
+	l := "None"
+	if c.Lang != "" {
+		l = "(Some " + hx.S(c.Lang) + ")"
+	}
+	switch c.Kind {
+	case "func":
+		in := "None"
+		if !c.NoIn {
+			in = "(Some " + hx.B(c.Input) + ")"
+		}
+		return fmt.Sprintf("(OcFunc %s %s %s)", hx.S(c.Sym), l, in)
+	case "code":
+		return fmt.Sprintf("(OcCode %s)", hx.S(c.Sym))
+	case "tpl":
+		return fmt.Sprintf("(OcTpl %s %s)", hx.S(c.Sym), l)
+	}
+	return fmt.Sprintf("(OcMenu %s %s)", hx.S(c.Sym), l)
+}
+
+func ccCtxLang(ctx context.Context) string {
+	v := ctx.Value("Language")
+	if v == nil {
+		return ""
+	}
+	if l, ok := v.(lang.Language); ok {
+		return l.Code
+	}
+	return "?"
+}
+
+type ccWorld struct {
+	counts map[string]int
+	calls  []ccCall
+}
+
+type ccRecRs struct {
+	*resource.DbResource
+	w *ccWorld
+}
+
+func (r *ccRecRs) GetCode(ctx context.Context, sym string) ([]byte, error) {
+	r.w.calls = append(r.w.calls, ccCall{Kind: "code", Sym: sym})
+	return r.DbResource.GetCode(ctx, sym)
+}
+func (r *ccRecRs) GetTemplate(ctx context.Context, sym string) (string, error) {
+	r.w.calls = append(r.w.calls, ccCall{Kind: "tpl", Sym: sym, Lang: ccCtxLang(ctx)})
+	return r.DbResource.GetTemplate(ctx, sym)
+}
+func (r *ccRecRs) GetMenu(ctx context.Context, sym string) (string, error) {
+	r.w.calls = append(r.w.calls, ccCall{Kind: "menu", Sym: sym, Lang: ccCtxLang(ctx)})
+	return r.DbResource.GetMenu(ctx, sym)
+}
+
+func ccScripted(w *ccWorld, key string, script []ccFres) resource.EntryFunc {
+	return func(ctx context.Context, sym string, input []byte) (resource.Result, error) {
+		n := w.counts[key]
+		w.counts[key] = n + 1
+		w.calls = append(w.calls, ccCall{Kind: "func", Sym: key, Lang: ccCtxLang(ctx), Input: append([]byte{}, input...), NoIn: input == nil})
+		f := script[n%len(script)]
+		if f.Fail {
+			return resource.Result{Status: f.Status}, errors.New("scripted failure")
+		}
+		content := f.Content
+		if f.Echo {
+			content += string(input)
+		}
+		return resource.Result{Content: content, Status: f.Status, FlagSet: f.Set, FlagReset: f.Reset}, nil
+	}
+}
+
+// a db/mem instance of its own whose values ARE the shared slices (memDb.Put keeps the slice it is
+// given; checked here: Get hands back the very same array with the same capacity)
+func ccBuildResource(a *ccApp, sh *ccShared, w *ccWorld) (*ccRecRs, error) {
+	ctx := context.Background()
+	m := memdb.NewMemDb()
+	m.Connect(ctx, "")
+	for _, t := range []uint8{db.DATATYPE_BIN, db.DATATYPE_TEMPLATE, db.DATATYPE_MENU, db.DATATYPE_STATICLOAD} {
+		m.SetLock(t, false)
+	}
+	put := func(typ uint8, l []ccArr) error {
+		m.SetPrefix(typ)
+		for _, e := range l {
+			if err := m.Put(ctx, []byte(e.name), e.s); err != nil {
+				return err
+			}
+			got, err := m.Get(ctx, []byte(e.name))
+			if err != nil {
+				return err
+			}
+			if len(got) != len(e.s) || cap(got) != cap(e.s) || (cap(got) > 0 && unsafe.SliceData(got) != unsafe.SliceData(e.s)) {
+				return fmt.Errorf("db/mem copied the value of %q: the sharing set-up of C19 does not hold any more", e.name)
+			}
+		}
+		return nil
+	}
+	if err := put(db.DATATYPE_BIN, sh.code); err != nil {
+		return nil, err
+	}
+	if err := put(db.DATATYPE_TEMPLATE, sh.tpl); err != nil {
+		return nil, err
+	}
+	if err := put(db.DATATYPE_MENU, sh.menu); err != nil {
+		return nil, err
+	}
+	m.SetLock(0, true)
+	rs := resource.NewDbResource(m)
+	for _, s := range a.Funcs {
+		if len(a.Fn[s]) > 0 {
+			rs.AddLocalFunc(s, ccScripted(w, s, a.Fn[s]))
+		}
+	}
+	return &ccRecRs{DbResource: rs, w: w}, nil
+}
+
+// ---- one session ------------------------------------------------------------------------------------
+
+func ccErrClass(err error) string {
+	if err == nil {
+		return "OSOk"
+	}
+	var xe *vm.ExternalCodeError
+	var be *render.BrowseError
+	switch {
+	case errors.As(err, &xe):
+		return "(OSErr EExternal)"
+	case errors.Is(err, state.IndexError):
+		return "(OSErr EIndex)"
+	case errors.As(err, &be):
+		return "(OSErr EBrowse)"
+	case err == engine.ErrFlushNoExec:
+		return "(OSErr EFlushNoExec)"
+	case db.IsNotFound(err):
+		return "(OSErr ENotFound)"
+	}
+	return "(OSErr EGen)"
+}
+
+func ccSortedMap(m map[string]string) string {
+	keys := make([]string, 0, len(m))
+	for k := range m {
+		keys = append(keys, k)
+	}
+	sort.Strings(keys)
+	items := make([]string, len(keys))
+	for i, k := range keys {
+		items[i] = fmt.Sprintf("(%s, %s)", hx.S(k), hx.S(m[k]))
+	}
+	return hx.List(items)
+}
+
+func ccSortedSizes(m map[string]uint16) string {
+	keys := make([]string, 0, len(m))
+	for k := range m {
+		keys = append(keys, k)
+	}
+	sort.Strings(keys)
+	items := make([]string, len(keys))
+	for i, k := range keys {
+		items[i] = fmt.Sprintf("(%s, %d)", hx.S(k), m[k])
+	}
+	return hx.List(items)
+}
+
+func ccSnapTerm(st *state.State, ca *cache.Cache) string {
+	if st == nil || ca == nil {
+		return "None"
+	}
+	l := "None"
+	if st.Language != nil {
+		l = "(Some " + hx.S(st.Language.Code) + ")"
+	}
+	frames := make([]string, len(ca.Cache))
+	for i, f := range ca.Cache {
+		frames[i] = ccSortedMap(f)
+	}
+	return fmt.Sprintf("(Some (mkOsnap %s %s %d %s %s %d %d %s %s %s))", hx.B(st.Code), hx.SList(st.ExecPath), st.SizeIdx, hx.B(st.Flags), l,
+		ca.CacheSize, ca.CacheUseSize, hx.List(frames), ccSortedSizes(ca.Sizes), hx.S(ca.LastValue))
+}
+
+type ccStep struct {
+	Input   []byte `json:"input"`
+	Cont    bool   `json:"cont"`
+	Exec    string `json:"exec"`
+	Out     string `json:"out"`
+	Flush   string `json:"flush"`
+	Panic   string `json:"panic,omitempty"`
+	Aliased bool   `json:"aliased,omitempty"`
+	term    string
+}
+
+func (s ccStep) sresp() string {
+	return fmt.Sprintf("(mkSresp %s %s %s %s)", hx.Bool(s.Cont), s.Exec, hx.S(s.Out), s.Flush)
+}
+
+type ccSession struct {
+	id        int
+	persisted bool
+	c         *ccCfg
+	cfg       engine.Config
+	sh        *ccShared
+	w         *ccWorld
+	rs        *ccRecRs
+	st        *state.State
+	ca        *cache.Cache
+	en        *engine.DefaultEngine
+	store     db.Db
+	dead      bool
+	steps     []ccStep
+}
+
+func ccNewSession(a *ccApp, c *ccCfg, sh *ccShared, id int, persisted bool) (*ccSession, error) {
+	s := &ccSession{id: id, persisted: persisted, c: c, sh: sh, w: &ccWorld{counts: map[string]int{}}}
+	rs, err := ccBuildResource(a, sh, s.w)
+	if err != nil {
+		return nil, err
+	}
+	s.rs = rs
+	s.cfg = engine.Config{OutputSize: c.Out, SessionId: fmt.Sprintf("sess%d", id), Root: c.Root, FlagCount: c.FlagCount, CacheSize: c.CacheSize,
+		Language: c.Lang, MenuSeparator: c.Sep, ResetOnEmptyInput: c.ResetEmpty}
+	if persisted {
+		m := memdb.NewMemDb()
+		m.Connect(context.Background(), "")
+		s.store = m
+	} else {
+		s.st = state.NewState(c.FlagCount)
+		s.ca = cache.NewCache()
+		if c.CacheSize > 0 {
+			s.ca = s.ca.WithCacheSize(c.CacheSize)
+		}
+		s.en = engine.NewEngine(s.cfg, s.rs).WithState(s.st).WithMemory(s.ca)
+	}
+	return s, nil
+}
+
+// one request; returns false when the session accepts no more requests
+func (s *ccSession) request(in []byte) bool {
+	if s.dead {
+		return false
+	}
+	ctx := context.Background()
+	s.w.calls = nil
+	var step ccStep
+	step.Input = in
+	step.Exec, step.Flush = "OSPanic", "OSPanic"
+	var out []byte
+	en := s.en
+	var pe *persist.Persister
+	if s.persisted {
+		pe = persist.NewPersister(s.store)
+		en = engine.NewEngine(s.cfg, s.rs).WithPersister(pe)
+	}
+	panicked, pv := hx.Recover(func() {
+		c, err := en.Exec(ctx, in)
+		step.Cont = c
+		step.Exec = ccErrClass(err)
+		w := bytes.NewBuffer(nil)
+		_, ferr := en.Flush(ctx, w)
+		out = w.Bytes()
+		step.Flush = ccErrClass(ferr)
+		if s.persisted {
+			// Finish closes the resource; db/mem's Close is a no-op
+			en.Finish(ctx)
+		}
+	})
+	st, ca := s.st, s.ca
+	if s.persisted {
+		pe2 := persist.NewPersister(s.store).WithContent(state.NewState(s.c.FlagCount), cache.NewCache())
+		if lerr := pe2.Load(s.cfg.SessionId); lerr == nil {
+			st, ca = pe2.State, pe2.Memory
+		} else {
+			st, ca = nil, nil
+		}
+		if pe != nil && pe.State != nil && s.sh.overlaps(pe.State.Code) {
+			step.Aliased = true
+		}
+	}
+	if st != nil && s.sh.overlaps(st.Code) {
+		step.Aliased = true
+	}
+	step.Out = string(out)
+	snap := ccSnapTerm(st, ca)
+	if panicked {
+		step.Panic = fmt.Sprint(pv)
+		snap = "None"
+		s.dead = true
+	}
+	if !s.persisted && !step.Cont {
+		s.dead = true // "Calling Exec again has undefined effects"
+	}
+	calls := make([]string, len(s.w.calls))
+	for i, c := range s.w.calls {
+		calls[i] = c.term()
+	}
+	step.term = fmt.Sprintf("(%s, mkEobs %s %s %s %s %s %s)", hx.B(in), hx.Bool(step.Cont), step.Exec, hx.B(out), step.Flush, snap, hx.List(calls))
+	s.steps = append(s.steps, step)
+	return true
+}
+
+func (s *ccSession) obsTerm() string {
+	st := make([]string, len(s.steps))
+	for i, x := range s.steps {
+		st[i] = x.term
+	}
+	return fmt.Sprintf("(%s, %s)", hx.Bool(s.persisted), hx.List(st))
+}
+
+func (s *ccSession) soloTerm() string {
+	st := make([]string, len(s.steps))
+	for i, x := range s.steps {
+		st[i] = x.sresp()
+	}
+	return hx.List(st)
+}
+
+func (s *ccSession) aliased() bool {
+	for _, x := range s.steps {
+		if x.Aliased {
+			return true
+		}
+	}
+	return false
+}
+
+// ---- generators -----------------------------------------------------------------------------------------
+
+func ccPick[T any](r *rand.Rand, l []T) T { return l[r.Intn(len(l))] }
+
+func ccLine(op vm.Opcode, strs []string, ba []byte, na []uint8) []byte {
+	return vm.NewLine(nil, uint16(op), strs, ba, na)
+}
+
+func ccMinBE(n uint32) []byte {
+	if n == 0 {
+		return []byte{0}
+	}
+	var b []byte
+	for n > 0 {
+		b = append([]byte{byte(n)}, b...)
+		n >>= 8
+	}
+	return b
+}
+
+type ccGen struct {
+	app  *ccApp
+	cfg  *ccCfg
+	sels []string
+	desc []string
+}
+
+var ccNodePool = []string{"foo", "bar", "baz", "quux", "n1"}
+var ccSelPool = []string{"0", "1", "2", "3", "9", "a", "x1"}
+
+// applications made of CATCH / MOVE / INCMP chains: before its first HALT a node moves only forward
+// (so that no cycle avoids a HALT), INCMP may lead anywhere
+func ccGenApp(r *rand.Rand) ccGen {
+	flagCount := ccPick(r, []int{4, 4, 2, 8})
+	nn := 2 + r.Intn(4)
+	nodes := append([]string{"root"}, ccNodePool[:nn]...)
+	ns := 3 + r.Intn(3)
+	perm := r.Perm(len(ccSelPool))
+	var sels []string
+	for i := 0; i < ns; i++ {
+		sels = append(sels, ccSelPool[perm[i]])
+	}
+	a := &ccApp{Fn: map[string][]ccFres{}}
+	syms := []string{"aa", "bb", "cc"}[:2+r.Intn(2)]
+	for _, s := range syms {
+		n := 1 + r.Intn(3)
+		var sc []ccFres
+		for i := 0; i < n; i++ {
+			f := ccFres{Content: ccPick(r, []string{"x", "ok", "hello", "v1\nv2", ""})}
+			if r.Intn(2) == 0 {
+				f.Set = []uint32{uint32(8 + r.Intn(flagCount))}
+			}
+			if r.Intn(3) == 0 {
+				f.Reset = []uint32{uint32(8 + r.Intn(flagCount))}
+			}
+			if r.Intn(8) == 0 {
+				f.Echo = true
+			}
+			if r.Intn(16) == 0 {
+				f.Fail = true
+			}
+			sc = append(sc, f)
+		}
+		a.Funcs = append(a.Funcs, s)
+		a.Fn[s] = sc
+	}
+	var desc []string
+	all := append(append([]string{}, nodes...), "_catch")
+	for idx, n := range all {
+		var code []byte
+		var src []string
+		add := func(s string, b []byte) { code = append(code, b...); src = append(src, s) }
+		var later []string
+		for j, cand := range nodes {
+			if j > idx {
+				later = append(later, cand)
+			}
+		}
+		if n == "_catch" {
+			add("MOUT back 0", ccLine(vm.MOUT, []string{"back", "0"}, nil, nil))
+			add("HALT", ccLine(vm.HALT, nil, nil, nil))
+			d := ccPick(r, []string{"_", "^", "root"})
+			add("INCMP "+d+" *", ccLine(vm.INCMP, []string{d, "*"}, nil, nil))
+		} else {
+			np := r.Intn(5)
+			var mapped []string
+			for i := 0; i < np; i++ {
+				k := r.Intn(100)
+				switch {
+				case k < 30:
+					s := ccPick(r, syms)
+					lim := ccPick(r, []int{0, 12, 40})
+					add(fmt.Sprintf("LOAD %s %d", s, lim), ccLine(vm.LOAD, []string{s}, ccMinBE(uint32(lim)), nil))
+					if r.Intn(3) > 0 {
+						add("MAP "+s, ccLine(vm.MAP, []string{s}, nil, nil))
+						mapped = append(mapped, s)
+					}
+				case k < 40:
+					s := ccPick(r, syms)
+					add("RELOAD "+s, ccLine(vm.RELOAD, []string{s}, nil, nil))
+				case k < 70:
+					if len(later) == 0 {
+						continue
+					}
+					fl := uint32(8 + r.Intn(flagCount))
+					if r.Intn(10) == 0 {
+						fl = uint32(ccPick(r, []int{3, 6, 8 + flagCount}))
+					}
+					mode := r.Intn(3) > 0
+					mb := uint8(0)
+					if mode {
+						mb = 1
+					}
+					d := ccPick(r, later)
+					add(fmt.Sprintf("CATCH %s %d %v", d, fl, mode), ccLine(vm.CATCH, []string{d}, ccMinBE(fl), []uint8{mb}))
+				case k < 80:
+					if len(later) == 0 {
+						continue
+					}
+					d := ccPick(r, later)
+					add("MOVE "+d, ccLine(vm.MOVE, []string{d}, nil, nil))
+				default:
+					lbl := ccPick(r, []string{"lbl1", "lbl2", "back"})
+					sel := ccPick(r, sels)
+					add(fmt.Sprintf("MOUT %s %s", lbl, sel), ccLine(vm.MOUT, []string{lbl, sel}, nil, nil))
+				}
+			}
+			add("HALT", ccLine(vm.HALT, nil, nil, nil))
+			ni := 1 + r.Intn(4)
+			for i := 0; i < ni; i++ {
+				var d string
+				k := r.Intn(100)
+				switch {
+				case k < 12:
+					d = "_"
+				case k < 16:
+					d = "^"
+				case k < 19:
+					d = "."
+				case k < 21:
+					d = "nonode"
+				default:
+					d = ccPick(r, nodes)
+					if d == n {
+						d = "_"
+					}
+				}
+				s := ccPick(r, sels)
+				if r.Intn(8) == 0 {
+					s = "*"
+				}
+				add(fmt.Sprintf("INCMP %s %s", d, s), ccLine(vm.INCMP, []string{d, s}, nil, nil))
+			}
+			if r.Intn(8) == 0 {
+				add("HALT", ccLine(vm.HALT, nil, nil, nil))
+			}
+			t := ccPick(r, []string{"this is " + n, n, "T"})
+			for _, s := range mapped {
+				t += ccPick(r, []string{" ", "\n", ": "}) + "{{." + s + "}}"
+			}
+			a.Tpl = append(a.Tpl, ccKV{n, t})
+		}
+		if n == "_catch" {
+			a.Tpl = append(a.Tpl, ccKV{n, "catch"})
+		}
+		a.Code = append(a.Code, ccKV{n, string(code)})
+		desc = append(desc, n+": "+strings.Join(src, "; "))
+	}
+	if r.Intn(3) == 0 {
+		a.Menu = append(a.Menu, ccKV{"lbl1_menu", "LBL1"})
+	}
+	sort.Slice(a.Tpl, func(i, j int) bool { return a.Tpl[i].K < a.Tpl[j].K })
+	c := &ccCfg{FlagCount: uint32(flagCount), Out: uint32(ccPick(r, []int{0, 0, 0, 60, 160}))}
+	c.CacheSize = uint32(ccPick(r, []int{0, 0, 100, 400}))
+	if r.Intn(8) == 0 {
+		c.Sep = ")"
+	}
+	return ccGen{app: a, cfg: c, sels: sels, desc: desc}
+}
+
+func ccGenHistory(r *rand.Rand, sels []string, n int) [][]byte {
+	h := [][]byte{{}}
+	for i := 0; i < n; i++ {
+		k := r.Intn(100)
+		var in string
+		switch {
+		case k < 70:
+			in = ccPick(r, sels)
+		case k < 80:
+			in = ccPick(r, ccSelPool)
+		case k < 85:
+			in = ""
+		case k < 93:
+			in = ccPick(r, []string{"zz", "q", "7 7"})
+		default:
+			in = ccPick(r, []string{"!bad", " 1", "-"})
+		}
+		h = append(h, []byte(in))
+	}
+	return h
+}
+
+// ---- application cases -----------------------------------------------------------------------------
+
+type ccRun struct {
+	sessions []*ccSession
+	sched    []int
+	final    [][]byte
+	other    bool
+}
+
+// serve the histories alone, one session after the other, on a private copy of the application data
+func ccSolo(g ccGen, pers []bool, hist [][][]byte) ([]*ccSession, error) {
+	var out []*ccSession
+	for i := range hist {
+		sh := ccMakeShared(g.app)
+		s, err := ccNewSession(g.app, g.cfg, sh, i, pers[i])
+		if err != nil {
+			return nil, err
+		}
+		for _, in := range hist[i] {
+			if !s.request(in) {
+				break
+			}
+		}
+		out = append(out, s)
+	}
+	return out, nil
+}
+
+// a random interleaving on one goroutine
+func ccInterleaved(r *rand.Rand, g ccGen, pers []bool, hist [][][]byte) (*ccRun, error) {
+	sh := ccMakeShared(g.app)
+	run := &ccRun{}
+	pos := make([]int, len(hist))
+	for i := range hist {
+		s, err := ccNewSession(g.app, g.cfg, sh, i, pers[i])
+		if err != nil {
+			return nil, err
+		}
+		run.sessions = append(run.sessions, s)
+	}
+	for {
+		var live []int
+		for i, s := range run.sessions {
+			if !s.dead && pos[i] < len(hist[i]) {
+				live = append(live, i)
+			}
+		}
+		if len(live) == 0 {
+			break
+		}
+		i := ccPick(r, live)
+		run.sessions[i].request(hist[i][pos[i]])
+		pos[i]++
+		run.sched = append(run.sched, i)
+	}
+	run.final = sh.codeArrays()
+	run.other = sh.otherIntact()
+	return run, nil
+}
+
+// one goroutine per session, started together
+func ccConcurrent(g ccGen, pers []bool, hist [][][]byte) (*ccRun, error) {
+	sh := ccMakeShared(g.app)
+	run := &ccRun{}
+	for i := range hist {
+		s, err := ccNewSession(g.app, g.cfg, sh, i, pers[i])
+		if err != nil {
+			return nil, err
+		}
+		run.sessions = append(run.sessions, s)
+	}
+	var wg sync.WaitGroup
+	start := make(chan struct{})
+	for i, s := range run.sessions {
+		wg.Add(1)
+		go func(s *ccSession, h [][]byte) {
+			defer wg.Done()
+			<-start
+			for _, in := range h {
+				if !s.request(in) {
+					break
+				}
+				runtime.Gosched()
+			}
+		}(s, hist[i])
+	}
+	close(start)
+	wg.Wait()
+	run.final = sh.codeArrays()
+	run.other = sh.otherIntact()
+	return run, nil
+}
+
+func ccWatchdog(what string) func() {
+	done := make(chan struct{})
+	go func() {
+		select {
+		case <-done:
+		case <-time.After(60 * time.Second):
+			fmt.Fprintf(os.Stderr, "harness: %s did not finish in 60s\n", what)
+			os.Exit(4)
+		}
+	}()
+	return func() { close(done) }
+}
+
+func ccAppCase(kind string, g ccGen, run *ccRun, solo []*ccSession, extra map[string]interface{}) hx.Case {
+	ss := make([]string, len(run.sessions))
+	so := make([]string, len(solo))
+	aliased := false
+	nreq := 0
+	for i, s := range run.sessions {
+		ss[i] = s.obsTerm()
+		aliased = aliased || s.aliased()
+		nreq += len(s.steps)
+	}
+	for i, s := range solo {
+		so[i] = s.soloTerm()
+	}
+	sched := make([]string, len(run.sched))
+	for i, x := range run.sched {
+		sched[i] = fmt.Sprint(x)
+	}
+	term := fmt.Sprintf("(CApp (mkAcase %s %s (rep %d %d) %s %s %s %s %s %s))", g.app.term(), g.cfg.term(), ccSentinel, ccSpare,
+		hx.List(ss), hx.List(sched), hx.List(so), hx.BList(run.final), hx.Bool(aliased), hx.Bool(run.other))
+	steps := map[string]interface{}{}
+	for i, s := range run.sessions {
+		steps[fmt.Sprintf("session%d", i)] = s.steps
+		steps[fmt.Sprintf("solo%d", i)] = solo[i].steps
+	}
+	d := map[string]interface{}{"nodes": g.desc, "cfg": g.cfg, "app": g.app, "schedule": run.sched, "steps": steps}
+	for k, v := range extra {
+		d[k] = v
+	}
+	return hx.Case{Term: term, Kind: kind, Trivial: nreq < 2*len(run.sessions), Desc: d}
+}
+
+// Go's copy of the monitor, for the statistics only
+func ccGoMonitor(run *ccRun, solo []*ccSession) bool {
+	if !run.other {
+		return false
+	}
+	for i, s := range run.sessions {
+		if s.aliased() || len(s.steps) != len(solo[i].steps) {
+			return false
+		}
+		for j := range s.steps {
+			a, b := s.steps[j], solo[i].steps[j]
+			if a.Cont != b.Cont || a.Exec != b.Exec || a.Out != b.Out || a.Flush != b.Flush {
+				return false
+			}
+		}
+	}
+	for i, a := range ccMakeSharedInit(run, solo) {
+		if !bytes.Equal(a, run.final[i]) {
+			return false
+		}
+	}
+	return true
+}
+
+// initial content of the code arrays (every ccShared of the same application starts the same)
+func ccMakeSharedInit(run *ccRun, solo []*ccSession) [][]byte {
+	var r [][]byte
+	for _, a := range solo[0].sh.code {
+		r = append(r, a.init)
+	}
+	return r
+}
+
+// ---- primitive cases: the buffer operations on real slices ----------------------------------------------
+
+type ccOp struct {
+	Kind string `json:"kind"` // consume append replace adopt fresh store take decode
+	N    int    `json:"n"`
+	Data []byte `json:"data,omitempty"`
+}
+
+func (o ccOp) term() string {
+	switch o.Kind {
+	case "consume":
+		return fmt.Sprintf("(OpConsume %d)", o.N)
+	case "append":
+		return fmt.Sprintf("(OpAppendFromResource %d)", o.N)
+	case "replace":
+		return fmt.Sprintf("(OpReplaceFromResource %d)", o.N)
+	case "adopt":
+		return fmt.Sprintf("(OpAdopt %d)", o.N)
+	case "fresh":
+		return fmt.Sprintf("(OpReplaceFresh %s)", hx.B(o.Data))
+	case "store":
+		return "OpStore"
+	case "take":
+		return "OpTake"
+	}
+	return "OpDecodeFresh"
+}
+
+type ccBuf struct {
+	b, code []byte
+	allocs  int
+}
+
+type ccCapRec struct{ sid, k, cap int }
+
+// the Go statements of vm/runner.go, engine/db.go and state/state.go, verbatim
+func (s *ccBuf) step(sid int, res [][]byte, o ccOp, caps *[]ccCapRec) {
+	app := func(dst []byte, data []byte) []byte {
+		nb := append(dst, data...)
+		moved := false
+		if len(data) > 0 {
+			if cap(dst) == 0 {
+				moved = true
+			} else {
+				moved = &nb[:1][0] != &dst[:1][0]
+			}
+		}
+		if moved {
+			*caps = append(*caps, ccCapRec{sid, s.allocs, cap(nb)})
+			s.allocs++
+		}
+		return nb
+	}
+	switch o.Kind {
+	case "consume": // b = b[n:] (the decoder has checked n <= len(b))
+		n := o.N
+		if n > len(s.b) {
+			n = len(s.b)
+		}
+		s.b = s.b[n:]
+	case "append": // runMove, runInCmp: b = append(b, code...)
+		if o.N < len(res) {
+			s.b = app(s.b, res[o.N])
+		}
+	case "replace": // runCatch: b = append([]byte{}, bh...)
+		if o.N < len(res) {
+			s.b = app([]byte{}, res[o.N])
+		}
+	case "adopt": // runCatch before 800b081: b = bh
+		if o.N < len(res) {
+			s.b = res[o.N]
+		}
+	case "fresh": // NewLine(nil, ...): append([]byte{}, b...)
+		s.b = app([]byte{}, o.Data)
+	case "store": // st.SetCode(b); the local b dies
+		s.code = s.b
+		s.b = []byte{}
+	case "take": // b = st.GetCode()
+		s.b = s.code
+		s.code = []byte{}
+	case "decode": // a new State decoded from the stored record
+		s.code = app([]byte{}, s.code)
+		s.b = []byte{}
+	}
+}
+
+func ccObsTerm(b, code []byte) string { return fmt.Sprintf("(%s, %s)", hx.B(b), hx.B(code)) }
+
+type ccPrim struct {
+	Codes  [][]byte `json:"codes"`
+	Spares []int    `json:"spares"`
+	Sched  []struct {
+		Sid int  `json:"sid"`
+		Op  ccOp `json:"op"`
+	} `json:"sched"`
+}
+
+func ccPrimArrays(p *ccPrim) ([][]byte, [][]byte) {
+	var res, init [][]byte
+	for i, c := range p.Codes {
+		s := make([]byte, len(c), len(c)+p.Spares[i])
+		copy(s, c)
+		full := s[:cap(s)]
+		for j := len(c); j < len(full); j++ {
+			full[j] = ccSentinel
+		}
+		res = append(res, s)
+		init = append(init, append([]byte{}, full...))
+	}
+	return res, init
+}
+
+func ccRunPrim(p *ccPrim, only int) (obs []string, raw [][2][]byte, caps []ccCapRec, final [][]byte, intact bool) {
+	res, init := ccPrimArrays(p)
+	sess := map[int]*ccBuf{}
+	for _, e := range p.Sched {
+		if only >= 0 && e.Sid != only {
+			continue
+		}
+		s := sess[e.Sid]
+		if s == nil {
+			s = &ccBuf{b: []byte{}, code: []byte{}}
+			sess[e.Sid] = s
+		}
+		s.step(e.Sid, res, e.Op, &caps)
+		obs = append(obs, ccObsTerm(s.b, s.code))
+		raw = append(raw, [2][]byte{append([]byte{}, s.b...), append([]byte{}, s.code...)})
+	}
+	intact = true
+	for i, r := range res {
+		f := append([]byte{}, r[:cap(r)]...)
+		final = append(final, f)
+		if !bytes.Equal(f, init[i]) {
+			intact = false
+		}
+	}
+	return
+}
+
+func ccPrimCase(kind string, p *ccPrim) (hx.Case, bool) {
+	obs, raw, caps, final, intact := ccRunPrim(p, -1)
+	sids := map[int]bool{}
+	var order []int
+	for _, e := range p.Sched {
+		if !sids[e.Sid] {
+			sids[e.Sid] = true
+			order = append(order, e.Sid)
+		}
+	}
+	same := intact
+	var solos []string
+	for _, sid := range order {
+		so, sraw, scaps, _, _ := ccRunPrim(p, sid)
+		solos = append(solos, fmt.Sprintf("(%d, %s)", sid, hx.List(so)))
+		// the solo run allocates the same arrays in the same order: its capacities join the oracle
+		caps = append(caps, scaps...)
+		k := 0
+		for i, e := range p.Sched {
+			if e.Sid != sid {
+				continue
+			}
+			if !bytes.Equal(raw[i][0], sraw[k][0]) || !bytes.Equal(raw[i][1], sraw[k][1]) {
+				same = false
+			}
+			k++
+		}
+	}
+	tbl := make([]string, len(p.Codes))
+	for i, c := range p.Codes {
+		tbl[i] = fmt.Sprintf("(%s, rep %d %d)", hx.B(c), ccSentinel, p.Spares[i])
+	}
+	sched := make([]string, len(p.Sched))
+	for i, e := range p.Sched {
+		sched[i] = fmt.Sprintf("(%d, %s)", e.Sid, e.Op.term())
+	}
+	seen := map[[2]int]int{}
+	var capt []string
+	consistent := true
+	for _, c := range caps {
+		k := [2]int{c.sid, c.k}
+		if old, ok := seen[k]; ok {
+			if old != c.cap {
+				consistent = false
+			}
+			continue
+		}
+		seen[k] = c.cap
+		capt = append(capt, fmt.Sprintf("(%d, %d, %d)", c.sid, c.k, c.cap))
+	}
+	_ = consistent
+	term := fmt.Sprintf("(CPrim (mkPcase %s %s %s %s %s %s))", hx.List(tbl), hx.List(sched), hx.List(capt), hx.List(obs), hx.BList(final), hx.List(solos))
+	return hx.Case{Term: term, Kind: kind, Trivial: len(p.Sched) < 3, Desc: p}, same
+}
+
+func ccGenPrim(r *rand.Rand, adopt bool) *ccPrim {
+	p := &ccPrim{}
+	nn := 2 + r.Intn(4)
+	for i := 0; i < nn; i++ {
+		n := 1 + r.Intn(9)
+		c := make([]byte, n)
+		for j := range c {
+			c[j] = byte(1 + i*16 + j)
+		}
+		p.Codes = append(p.Codes, c)
+		p.Spares = append(p.Spares, ccPick(r, []int{0, 0, 1, 3, 8, 8, 24, 64}))
+	}
+	ns := 2 + r.Intn(3)
+	n := 6 + r.Intn(30)
+	for i := 0; i < n; i++ {
+		var o ccOp
+		k := r.Intn(100)
+		switch {
+		case k < 30:
+			o = ccOp{Kind: "consume", N: r.Intn(7)}
+		case k < 55:
+			o = ccOp{Kind: "append", N: r.Intn(nn + 1)}
+		case k < 68:
+			if adopt {
+				o = ccOp{Kind: "adopt", N: r.Intn(nn)}
+			} else {
+				o = ccOp{Kind: "replace", N: r.Intn(nn + 1)}
+			}
+		case k < 74:
+			o = ccOp{Kind: "replace", N: r.Intn(nn + 1)}
+		case k < 80:
+			d := make([]byte, r.Intn(5))
+			for j := range d {
+				d[j] = byte(200 + j)
+			}
+			o = ccOp{Kind: "fresh", Data: d}
+		case k < 88:
+			o = ccOp{Kind: "store"}
+		case k < 96:
+			o = ccOp{Kind: "take"}
+		default:
+			o = ccOp{Kind: "decode"}
+		}
+		p.Sched = append(p.Sched, struct {
+			Sid int  `json:"sid"`
+			Op  ccOp `json:"op"`
+		}{r.Intn(ns), o})
+	}
+	return p
+}
+
+// the pre-repair defect as a fixed schedule: both sessions CATCH to node 0 (adopt), each MOVEs on, 1 decodes
+func ccAdoptCorpus() *ccPrim {
+	p := &ccPrim{Codes: [][]byte{{9, 9, 9}, {1, 1}, {2, 2}}, Spares: []int{8, 0, 0}}
+	add := func(sid int, o ccOp) {
+		p.Sched = append(p.Sched, struct {
+			Sid int  `json:"sid"`
+			Op  ccOp `json:"op"`
+		}{sid, o})
+	}
+	add(1, ccOp{Kind: "adopt", N: 0})
+	add(2, ccOp{Kind: "adopt", N: 0})
+	add(1, ccOp{Kind: "append", N: 1})
+	add(2, ccOp{Kind: "append", N: 2})
+	add(1, ccOp{Kind: "consume", N: 3})
+	return p
+}
+
+// ---- self-test at application level: the harness seeds st.Code with the resource's own slice --------------
+// (what the pre-repair CATCH did inside the VM); two long-lived sessions, interleaved
+
+func ccSeededRun(g ccGen, hist [][][]byte, sched []int, seed bool) (*ccRun, error) {
+	sh := ccMakeShared(g.app)
+	run := &ccRun{}
+	for i := range hist {
+		s, err := ccNewSession(g.app, g.cfg, sh, i, false)
+		if err != nil {
+			return nil, err
+		}
+		if seed {
+			s.st.SetCode(sh.code[0].s) // root's code slice itself
+		}
+		run.sessions = append(run.sessions, s)
+	}
+	pos := make([]int, len(hist))
+	for _, i := range sched {
+		if pos[i] < len(hist[i]) {
+			run.sessions[i].request(hist[i][pos[i]])
+			pos[i]++
+			run.sched = append(run.sched, i)
+		}
+	}
+	run.final = sh.codeArrays()
+	run.other = sh.otherIntact()
+	return run, nil
+}
+
+func ccSeedApp() ccGen {
+	a := &ccApp{Fn: map[string][]ccFres{}}
+	mk := func(parts ...[]byte) string { return string(bytes.Join(parts, nil)) }
+	a.Code = []ccKV{
+		{"root", mk(ccLine(vm.HALT, nil, nil, nil), ccLine(vm.INCMP, []string{"foo", "1"}, nil, nil), ccLine(vm.INCMP, []string{"bar", "2"}, nil, nil))},
+		{"foo", mk(ccLine(vm.HALT, nil, nil, nil), ccLine(vm.INCMP, []string{"_", "0"}, nil, nil))},
+		{"bar", mk(ccLine(vm.HALT, nil, nil, nil), ccLine(vm.INCMP, []string{"_", "0"}, nil, nil))},
+		{"_catch", mk(ccLine(vm.HALT, nil, nil, nil), ccLine(vm.INCMP, []string{"_", "*"}, nil, nil))},
+	}
+	a.Tpl = []ccKV{{"_catch", "catch"}, {"bar", "this is bar"}, {"foo", "this is foo"}, {"root", "this is root"}}
+	return ccGen{app: a, cfg: &ccCfg{FlagCount: 1}, desc: []string{"root: HALT; INCMP foo 1; INCMP bar 2", "foo: HALT; INCMP _ 0", "bar: HALT; INCMP _ 0"}}
+}
+
+func ccSelftest() (string, map[string]int, error) {
+	var terms []string
+	stats := map[string]int{}
+	// CPrim with OpAdopt
+	for i, p := range []*ccPrim{ccAdoptCorpus()} {
+		c, same := ccPrimCase(fmt.Sprintf("selftest-adopt-%d", i), p)
+		terms = append(terms, c.Term)
+		stats["selftest_prim"]++
+		if !same {
+			stats["selftest_prim_flagged_go"]++
+		}
+	}
+	// CApp with a seeded buffer: session 0 goes root -> foo, session 1 root -> bar, then both go back
+	g := ccSeedApp()
+	hist := [][][]byte{{[]byte(""), []byte("1"), []byte("0")}, {[]byte(""), []byte("2"), []byte("0")}}
+	sched := []int{0, 1, 0, 1, 0, 1}
+	run, err := ccSeededRun(g, hist, sched, true)
+	if err != nil {
+		return "", nil, err
+	}
+	solo0, err := ccSeededRun(g, [][][]byte{hist[0], nil}, []int{0, 0, 0}, true)
+	if err != nil {
+		return "", nil, err
+	}
+	solo1, err := ccSeededRun(g, [][][]byte{nil, hist[1]}, []int{1, 1, 1}, true)
+	if err != nil {
+		return "", nil, err
+	}
+	solo := []*ccSession{solo0.sessions[0], solo1.sessions[1]}
+	c := ccAppCase("selftest-seeded", g, run, solo, nil)
+	terms = append(terms, c.Term)
+	stats["selftest_app"]++
+	if !ccGoMonitor(run, solo) {
+		stats["selftest_app_flagged_go"]++
+	}
+	// control: the same without seeding must pass
+	runc, err := ccSeededRun(g, hist, sched, false)
+	if err != nil {
+		return "", nil, err
+	}
+	soloc, err := ccSolo(g, []bool{false, false}, hist)
+	if err != nil {
+		return "", nil, err
+	}
+	if ccGoMonitor(runc, soloc) {
+		stats["selftest_control_ok"]++
+	}
+	return "Definition selftest : list ccase := " + hx.List(terms) + ".\nDefinition selftest_n := Eval vm_compute in selftest_flagged selftest.\nPrint selftest_n.", stats, nil
+}
+
+// ---- drivers ------------------------------------------------------------------------------------------------
+
+// was this binary built with -race?
+func ccRaceEnabled() bool {
+	bi, ok := debug.ReadBuildInfo()
+	if !ok {
+		return false
+	}
+	for _, s := range bi.Settings {
+		if s.Key == "-race" && s.Value == "true" {
+			return true
+		}
+	}
+	return false
+}
+
+const ccImports = "Bytes Errors Consts Codec CacheModel StateModel NavModel RenderModel VmModel EngineModel CorrBase EngineCorr SliceHeap SliceCorr"
+
+func init() {
+	drivers["alias"] = ccRunAlias
+	drivers["race"] = ccRunRace
+}
+
+func ccRunAlias(o opts) error {
+	pre, stats, err := ccSelftest()
+	if err != nil {
+		return err
+	}
+	w := &hx.Writer{Dir: o.out, Prop: o.prop, Imports: ccImports, CaseType: "ccase", Mism: "slice_mismatches_st selftest", Viol: "slice_violations",
+		Prelude: pre, PerShard: 25}
+	for k, v := range stats {
+		for i := 0; i < v; i++ {
+			w.Count(k)
+		}
+	}
+	// primitive cases: n/2 repaired schedules (judged by the monitor) ...
+	np := o.n / 2
+	for i := 0; i < np; i++ {
+		r := hx.Rng(o.seed, "alias-prim", i)
+		c, same := ccPrimCase("prim", ccGenPrim(r, false))
+		w.Add(c)
+		if !same {
+			w.Count("go_monitor_flagged")
+		}
+	}
+	// ... and n/10 schedules containing the pre-repair OpAdopt: the monitor does not judge them, the model
+	// must reproduce what Go did, interference included
+	nad := o.n / 10
+	for i := 0; i < nad; i++ {
+		r := hx.Rng(o.seed, "alias-adopt", i)
+		c, same := ccPrimCase("prim-adopt", ccGenPrim(r, true))
+		w.Add(c)
+		if !same {
+			w.Count("adopt_interference_observed")
+		}
+	}
+	np += nad
+	// application cases
+	na := o.n - np
+	for i := 0; i < na; i++ {
+		r := hx.Rng(o.seed, "alias-app", i)
+		stop := ccWatchdog(fmt.Sprintf("alias application case %d (seed %d)", i, o.seed))
+		g := ccGenApp(r)
+		k := 2 + r.Intn(3)
+		pers := make([]bool, k)
+		hist := make([][][]byte, k)
+		for j := 0; j < k; j++ {
+			pers[j] = r.Intn(2) == 0
+			hn := 2 + r.Intn(5)
+			if o.tier == "thorough" {
+				hn = 2 + r.Intn(9)
+			}
+			hist[j] = ccGenHistory(r, g.sels, hn)
+		}
+		run, err := ccInterleaved(r, g, pers, hist)
+		if err != nil {
+			return err
+		}
+		solo, err := ccSolo(g, pers, hist)
+		if err != nil {
+			return err
+		}
+		stop()
+		w.Add(ccAppCase("app-interleaved", g, run, solo, nil))
+		if !ccGoMonitor(run, solo) {
+			w.Count("go_monitor_flagged")
+		}
+		for _, s := range run.sessions {
+			w.Count(fmt.Sprintf("sessions_persisted_%v", s.persisted))
+			for _, st := range s.steps {
+				w.Count("exec:" + st.Exec)
+				if st.Panic != "" {
+					w.Count("panic")
+				}
+			}
+		}
+	}
+	return w.Flush()
+}
+
+// negative control for the race detector: the set-up the property EXCLUDES — two goroutines serving two
+// sessions through ONE DbResource (it sets its db's key prefix on every call).  Under -race this must end
+// the process with "WARNING: DATA RACE" (exit status 66 with GORACE=exitcode=66); without -race it returns
+// an error, so that the caller never mistakes it for a pass.
+func ccRaceNegativeControl() error {
+	g := ccSeedApp()
+	sh := ccMakeShared(g.app)
+	s0, err := ccNewSession(g.app, g.cfg, sh, 0, false)
+	if err != nil {
+		return err
+	}
+	var wg sync.WaitGroup
+	for i := 0; i < 2; i++ {
+		cfg := s0.cfg
+		cfg.SessionId = fmt.Sprintf("neg%d", i)
+		en := engine.NewEngine(cfg, s0.rs.DbResource) // the same resource object for both
+		wg.Add(1)
+		go func(en *engine.DefaultEngine) {
+			defer wg.Done()
+			ctx := context.Background()
+			for _, in := range []string{"", "1", "0", "2", "0", "1", "0"} {
+				hx.Recover(func() {
+					en.Exec(ctx, []byte(in))
+					en.Flush(ctx, bytes.NewBuffer(nil))
+				})
+			}
+		}(en)
+	}
+	wg.Wait()
+	return errors.New("negative control: the race detector did not stop the process (binary built without -race?)")
+}
+
+func ccRunRace(o opts) error {
+	if runtime.GOMAXPROCS(0) < 4 {
+		runtime.GOMAXPROCS(4)
+	}
+	pre, stats, err := ccSelftest()
+	if err != nil {
+		return err
+	}
+	w := &hx.Writer{Dir: o.out, Prop: o.prop, Imports: ccImports, CaseType: "ccase", Mism: "slice_mismatches_st selftest", Viol: "slice_violations",
+		Prelude: pre, PerShard: 4}
+	for k, v := range stats {
+		for i := 0; i < v; i++ {
+			w.Count(k)
+		}
+	}
+	w.Count(fmt.Sprintf("race_detector_enabled_%v", ccRaceEnabled()))
+	if o.replay == "selftest:shared-resource" {
+		return ccRaceNegativeControl()
+	}
+	reps := 5
+	if o.tier == "thorough" {
+		reps = 10
+	}
+	for i := 0; i < o.n; i++ {
+		r := hx.Rng(o.seed, "race", i)
+		stop := ccWatchdog(fmt.Sprintf("race case %d (seed %d)", i, o.seed))
+		g := ccGenApp(r)
+		k := 2 + r.Intn(15)
+		pers := make([]bool, k)
+		hist := make([][][]byte, k)
+		for j := 0; j < k; j++ {
+			pers[j] = r.Intn(2) == 0
+			hn := 2 + r.Intn(5)
+			if o.tier == "thorough" {
+				hn = 2 + r.Intn(9)
+			}
+			hist[j] = ccGenHistory(r, g.sels, hn)
+		}
+		solo, err := ccSolo(g, pers, hist)
+		if err != nil {
+			return err
+		}
+		// the same sessions served concurrently several times (the scheduler picks another interleaving
+		// each time); the case printed is the first run the Go copy of the monitor objects to, else the first
+		var run *ccRun
+		for rep := 0; rep < reps; rep++ {
+			rr, err := ccConcurrent(g, pers, hist)
+			if err != nil {
+				return err
+			}
+			w.Count("concurrent_runs")
+			ok := ccGoMonitor(rr, solo)
+			if run == nil || !ok {
+				run = rr
+			}
+			if !ok {
+				break
+			}
+		}
+		stop()
+		w.Add(ccAppCase("app-concurrent", g, run, solo, map[string]interface{}{"goroutines": k, "repetitions": reps}))
+		w.Count(fmt.Sprintf("goroutines_%02d", k))
+		if !ccGoMonitor(run, solo) {
+			w.Count("go_monitor_flagged")
+		}
+	}
+	return w.Flush()
+}
